@@ -197,6 +197,81 @@ def hash_order_sites(repo: Path) -> list[str]:
     return sites
 
 
+MUTATORS = {"append", "extend", "insert", "pop", "remove", "clear", "sort", "reverse", "update", "setdefault", "popitem", "add", "discard", "appendleft", "popleft", "fill", "put", "resize"}
+MEMO_DECORATORS = {"lru_cache", "cache", "cached_property", "functools.lru_cache", "functools.cache", "functools.cached_property", "memoize"}
+
+
+def shared_state_sites(repo: Path) -> list[str]:
+    """state that outlives an object and is shared by every instance in the interpreter: (1) memoising decorators (the cache sits on the function object, keyed by
+    the arguments - `self` included - and is never invalidated); (2) mutable values bound in the body of a class that is not a pydantic model (pydantic copies field
+    defaults per instance; a plain class attribute is ONE object for all instances), or declared ClassVar anywhere; (3) module-level mutable containers that some
+    function of the module mutates, and `global` rebinding.  Constants (tuples, strings, numbers, containers nobody mutates) are not state."""
+    def mutable_value(v):
+        if isinstance(v, (ast.List, ast.Dict, ast.Set, ast.ListComp, ast.DictComp, ast.SetComp)): return True
+        if isinstance(v, ast.Call):
+            f = ast.unparse(v.func)
+            return f in ("list", "dict", "set", "defaultdict", "collections.defaultdict", "OrderedDict", "collections.OrderedDict", "deque", "collections.deque",
+                         "Counter", "collections.Counter", "bytearray", "np.array", "np.zeros", "np.ones", "np.empty", "np.full", "WeakValueDictionary", "weakref.WeakValueDictionary",
+                         "WeakKeyDictionary", "weakref.WeakKeyDictionary")
+        return False
+    sites = []
+    trees = {}
+    for f in sorted((repo / "pyvolutionary").rglob("*.py")):
+        try: trees[f] = ast.parse(f.read_text())
+        except SyntaxError: continue
+    # which classes are pydantic models (transitively, by base-class name across the package)
+    bases = {}
+    for t in trees.values():
+        for c in ast.walk(t):
+            if isinstance(c, ast.ClassDef): bases[c.name] = [ast.unparse(b).split(".")[-1].split("[")[0] for b in c.bases]
+    def is_model(name, seen=()):
+        if name == "BaseModel": return True
+        return any(is_model(b, seen + (name,)) for b in bases.get(name, []) if b not in seen)
+    for f, t in trees.items():
+        rel = f.relative_to(repo)
+        for n in ast.walk(t):
+            if isinstance(n, (ast.FunctionDef, ast.AsyncFunctionDef)):
+                for d in n.decorator_list:
+                    dn = ast.unparse(d.func if isinstance(d, ast.Call) else d)
+                    if dn in MEMO_DECORATORS or dn.split(".")[-1] in MEMO_DECORATORS: sites.append(f"{rel}:{n.lineno}: @{dn} on {n.name}")
+            if isinstance(n, ast.ClassDef):
+                model = is_model(n.name)
+                for st in n.body:
+                    tgt = val = ann = None
+                    if isinstance(st, ast.Assign) and len(st.targets) == 1: tgt, val = st.targets[0], st.value
+                    elif isinstance(st, ast.AnnAssign) and st.value is not None: tgt, val, ann = st.target, st.value, ast.unparse(st.annotation)
+                    if tgt is None or not isinstance(tgt, ast.Name): continue
+                    classvar = ann is not None and "ClassVar" in ann
+                    if tgt.id in ("model_config", "__slots__", "__all__"): continue
+                    if mutable_value(val) and (classvar or not model):
+                        sites.append(f"{rel}:{st.lineno}: class attribute {n.name}.{tgt.id} = {ast.unparse(val)[:40]}")
+        # module level
+        top = {}
+        for st in t.body:
+            if isinstance(st, ast.Assign) and len(st.targets) == 1 and isinstance(st.targets[0], ast.Name) and mutable_value(st.value): top[st.targets[0].id] = st.lineno
+            elif isinstance(st, ast.AnnAssign) and isinstance(st.target, ast.Name) and st.value is not None and mutable_value(st.value): top[st.target.id] = st.lineno
+        top.pop("__all__", None)
+        for fn in ast.walk(t):
+            if not isinstance(fn, (ast.FunctionDef, ast.AsyncFunctionDef, ast.Lambda)): continue
+            for n in ast.walk(fn):
+                if isinstance(n, ast.Global): sites.append(f"{rel}:{n.lineno}: global {', '.join(n.names)}")
+                hit = None
+                if isinstance(n, (ast.Subscript, ast.Attribute)) and isinstance(n.ctx, (ast.Store, ast.Del)) and isinstance(n.value, ast.Name) and n.value.id in top: hit = n.value.id
+                if isinstance(n, ast.AugAssign) and isinstance(n.target, ast.Name) and n.target.id in top: hit = n.target.id
+                if isinstance(n, ast.Call) and isinstance(n.func, ast.Attribute) and n.func.attr in MUTATORS and isinstance(n.func.value, ast.Name) and n.func.value.id in top: hit = n.func.value.id
+                if hit: sites.append(f"{rel}:{n.lineno}: module-level {hit} (line {top[hit]}) mutated in a function")
+    return sorted(set(sites))
+
+
+def emit_shared_state(repo: Path, status: dict, flags: dict) -> None:
+    try:
+        sites = shared_state_sites(repo)
+        flags["gen_no_shared_mutable_state"] = not sites
+        status["gen_no_shared_mutable_state"] = "regenerated" if not sites else "UNSUPPORTED: state shared between instances at " + " | ".join(sites[:4])
+    except Exception as e:
+        flags["gen_no_shared_mutable_state"] = False; status["gen_no_shared_mutable_state"] = f"ERROR: {e}"
+
+
 def emit_hash_order(repo: Path, status: dict, flags: dict) -> None:
     try:
         sites = hash_order_sites(repo)
@@ -296,6 +371,7 @@ def emit(repo: Path, status: dict) -> None:
     emit_task_shape(repo, status, flags)
     emit_encoder_shape(repo, status, flags)
     emit_hash_order(repo, status, flags)
+    emit_shared_state(repo, status, flags)
     emit_bounds_fresh(repo, status, flags)
     emit_multi(repo, status, flags)
     emit_enum(repo, status, flags)
